@@ -50,6 +50,8 @@ type persistRunner struct {
 	p       types.Persister
 	ref     map[string][]byte // C08/C09 oracle: the map of acknowledged writes
 	flushed bool
+	gates   []*timerGate
+	paths   []string
 }
 
 type simpleCreator struct {
@@ -76,6 +78,20 @@ func openPersister(kind, path string, delay, batch int) (types.Persister, error)
 
 func (r *persistRunner) open() {
 	var err error
+	if r.delay == 1 && r.kind != "mem" {
+		// deterministic timer flushes: park the timer goroutine(s) until a `tick`
+		r.gates, r.paths = nil, nil
+		if r.shards >= 2 {
+			for i := 0; i < r.shards; i++ {
+				r.paths = append(r.paths, fmt.Sprintf("%s/%d", r.dir, i))
+			}
+		} else {
+			r.paths = []string{r.dir}
+		}
+		for _, p := range r.paths {
+			r.gates = append(r.gates, registerGate(p))
+		}
+	}
 	if r.shards >= 2 {
 		idp, e := sharded.NewShardIDProvider(int32(r.shards))
 		if e != nil {
@@ -105,6 +121,9 @@ func (persistComp) NewRunner(begin string) Runner {
 }
 
 func (r *persistRunner) Close() {
+	for _, p := range r.paths {
+		unregisterGate(p)
+	}
 	if r.p != nil {
 		_ = r.p.Close()
 	}
@@ -189,11 +208,18 @@ func (r *persistRunner) Exec(line string) string {
 		r.tag("rm")
 		return r.dump("after rm " + hx(k))
 	case "tick":
-		// wait for the timer to fire at least once (BatchDelaySeconds = 1 in histories that use tick)
-		time.Sleep(time.Duration(r.delay)*time.Second + 700*time.Millisecond)
+		// let exactly one timer flush through on every underlying persister
+		for _, g := range r.gates {
+			if !letTimerFlush(g, 30*time.Second) {
+				r.add("C10", "timer-never-fired", "the BatchDelaySeconds timer did not fire within 30s")
+			}
+		}
 		r.tag("tick")
 		return r.dump("after tick")
 	case "reopen":
+		for _, p := range r.paths {
+			unregisterGate(p)
+		}
 		if err := r.p.Close(); err != nil {
 			return "err-close:" + err.Error()
 		}
@@ -256,7 +282,7 @@ func (persistComp) Gen(rng *rand.Rand, tier string) [][]string {
 		h := []string{fmt.Sprintf("begin persist kind=%s shards=%d batch=%d delay=%d keys=%s", kind, shards, batch, delay, strings.Join(ks, ","))}
 		n := steps
 		if withTick {
-			n = 12
+			n = 20
 		}
 		for s := 0; s < n; s++ {
 			k := hx(keys[rng.Intn(nkeys)])
@@ -267,7 +293,7 @@ func (persistComp) Gen(rng *rand.Rand, tier string) [][]string {
 				h = append(h, fmt.Sprintf("put %s %s", k, v))
 			case x < 80:
 				h = append(h, "rm "+k)
-			case x < 90:
+			case x < 86 || (!withTick && x < 90):
 				if kind != "mem" {
 					h = append(h, "reopen")
 					if rng.Intn(2) == 0 {
@@ -276,6 +302,9 @@ func (persistComp) Gen(rng *rand.Rand, tier string) [][]string {
 				}
 			default:
 				if withTick {
+					if rng.Intn(2) == 0 {
+						h = append(h, "rm "+k)
+					}
 					h = append(h, "tick", "range")
 				} else if kind == "mem" || batch == 1 {
 					h = append(h, "range")
